@@ -20,7 +20,7 @@ import (
 
 // c09Act is what the peer does with the n-th request it receives (the last action repeats).
 type c09Act struct {
-	Do      string `json:"do"`       // reply | none | dup | forged | garbbody | garbonly | close | garblen
+	Do      string `json:"do"`       // reply | none | dup | dupburst | forged | garbbody | garbonly | close | garblen
 	DelayMs int    `json:"delay_ms"` // delay of the (proper) reply after the request was read
 }
 
@@ -56,7 +56,9 @@ func (l *c09Log) add(e c09Event) {
 type c09Peer struct {
 	log     *c09Log
 	acts    []c09Act
-	mode    string // accept | accept-close | noread
+	mode    string // accept | accept-close | noread | noread-early
+	earlyMs int    // noread-early: after this delay the peer writes a reply for each of the ids 1..earlyN
+	earlyN  int
 	ln      net.Listener
 	fds     []int      // raw sockets (refuse / stall)
 	held    []net.Conn // connections that fill the accept queue (stall)
@@ -68,6 +70,8 @@ type c09Peer struct {
 	pending sync.WaitGroup
 	closed  int32
 }
+
+const c09EarlyPay = 0xEA51EA51
 
 func c09Reply(id int32, pay uint32) []byte {
 	rsp := requestf.ResponsePacket{IVersion: 1, CPacketType: 0, IRequestId: id, IMessageType: 0, IRet: 0}
@@ -166,6 +170,17 @@ func (p *c09Peer) acceptLoop() {
 			c.Close()
 		case "noread":
 			// keep the connection, never read from it
+		case "noread-early":
+			// never read; answer requests that were never received: request ids are predictable (1, 2, ...), so these
+			// are replies that reach callers still blocked in Send as well as callers already waiting
+			go func() {
+				time.Sleep(time.Duration(p.earlyMs) * time.Millisecond)
+				for id := int32(1); id <= int32(p.earlyN); id++ {
+					p.log.add(c09Event{Kind: "send", Call: -1, ID: id, Pay: c09EarlyPay})
+					c.SetWriteDeadline(time.Now().Add(2 * time.Second))
+					c.Write(c09Reply(id, c09EarlyPay))
+				}
+			}()
 		default:
 			go p.serve(c)
 		}
@@ -237,6 +252,23 @@ func (p *c09Peer) serve(c net.Conn) {
 			sendOwn(1)
 		case "dup":
 			sendOwn(2)
+		case "dupburst":
+			// the reply forty times in one segment: several receivers find the caller's channel, only one can deliver
+			p.pending.Add(1)
+			go func() {
+				defer p.pending.Done()
+				time.Sleep(delay)
+				p.log.add(c09Event{Kind: "send", Call: -1, ID: id, Pay: pay})
+				r := c09Reply(id, pay)
+				var burst []byte
+				for i := 0; i < 40; i++ {
+					burst = append(burst, r...)
+				}
+				write(burst)
+				p.mu.Lock()
+				p.done = append(p.done, id)
+				p.mu.Unlock()
+			}()
 		case "forged":
 			// replies nobody waits for: a never-issued id, id 0 (push), an already completed id — all with a foreign payload
 			ids := []int32{id + 7777777, 0}
